@@ -454,6 +454,29 @@ pub fn generate_unbalanced(_ctx: &mut Ctx, seed: u64, i: usize) -> Case {
         let l = lang_for(ext);
         let opts = Opts { fancy: rng.chance(1, 3), rules: rng.chance(1, 3), crlf: rng.chance(1, 6), lookalikes: rng.chance(1, 4) };
         let path = if ["Makefile", "makefile", "go.mod", "go.sum", "go.work"].contains(&ext) { format!("d{k}/{ext}") } else { format!("src/f{k}.{ext}") };
+        // one damaged file in ten is a Markdown file using BOTH comment families, damaged in one family or in both in
+        // opposite directions (a surplus start tag in one, a surplus end tag in the other - anywhere in the file): the two
+        // families are paired separately, so the surplus tags never cancel
+        if k == bad && rng.chance(1, 10) {
+            let link = |t: &str| format!("[//]: # ({t})");
+            let html = |t: &str| format!("<!-- {t} -->");
+            let mut parts: Vec<String> = vec![
+                format!("{}\n\nlinked text\n\n{}", link("<block name=\"l1\">"), link("</block>")),
+                format!("{}\nhtml text\n{}", html("<block name=\"h1\">"), html("</block>")),
+                "# Title\n\nSome text.".to_string(),
+            ];
+            match rng.below(4) {
+                0 => { parts.push(link("<block name=\"open\">")); parts.push(html("</block>")); }
+                1 => { parts.push(html("<block name=\"open\">")); parts.push(link("</block>")); }
+                2 => { parts.push(link("<block name=\"open\">")); }
+                _ => { parts.push(html("</block>")); }
+            }
+            rng.shuffle(&mut parts);
+            op = "md-mixed-families";
+            bad_path = format!("src/f{k}.md");
+            files.push((bad_path.clone(), Some(parts.join("\n\n") + "\n")));
+            continue;
+        }
         let f = if k == bad {
             let sel = rng.below(1000);
             op = ["delete", "duplicate", "defuse"][sel % 3];
